@@ -6,4 +6,8 @@ import ob_sched
 
 def obligations(prog, src, tier, seed):
     depth = int(os.environ.get("SCHED_DEPTH", "4" if tier == "quick" else "6"))
-    return ob_sched.obligations(prog, src, tier, seed, "C14", n_req=2, depth=depth, classes=("C14",))
+    obs = ob_sched.obligations(prog, src, tier, seed, "C14", n_req=2, depth=depth, classes=("C14",))
+    if tier == "thorough":
+        # three requests: the schedules that exposed finding 12 (a sibling attempt abandoned while a third request dials)
+        obs += [dict(o, name=o["name"] + "_3req") for o in ob_sched.obligations(prog, src, tier, seed, "C14", n_req=3, depth=5, classes=("C14",)) if "schedules" in o["name"]]
+    return obs
